@@ -418,13 +418,29 @@ def run_batch(prop, progs, feat, release, rep, stats, budget_search):
                     rep.violation("model-disagreement", small, detail, False, signature="corr:%s" % prop)
         elif d_full is not None:
             stats["whitebox_only"] += 1
-            if stats["wb_searches"] < 3:
+            hid = corr.HIDDEN.get(prop)
+            d_hid = corr.compare(ml, il, hid) if hid else None
+            if stats["wb_searches"] < 3 or (d_hid is not None and stats["hidden_reported"] < 2):
                 stats["wb_searches"] += 1
                 found = search(prop, l, feat, release, budget_search // 2, stats)
                 if found is not None:
                     fl, fout, fk = found
                     rep.violation("impl-vs-property", fl, "hidden-state drift, then oracle `!%s`:\n%s" % (fk, "\n".join(fout)), True,
                                   signature="oracle:%s" % fk)
+                elif d_hid is not None and stats["hidden_reported"] < 2:
+                    # the part of the collector state this property's invariants read no longer corresponds: the
+                    # property is no longer shown to hold, although no failing input was found
+                    stats["hidden_reported"] += 1
+                    small = corr.shrink(l, corr.fails_for(hid, feat, release))
+                    nm = small[0][len("program "):].strip()
+                    m2 = corr.run_model(corr.prog_text(small)).get(nm, [])
+                    i2 = corr.run_impl([(nm, small)], feat, release).get(nm, [])
+                    dd = corr.compare(m2, i2, hid)
+                    detail = ("correspondence `%s` (hidden collector state read by the invariants behind %s: marks, tracing counters, "
+                              "buffer, counts) no longer holds (features %s, %s)\n" % (prop, prop, corr.feat_name(feat), "release" if release else "debug"))
+                    if dd is not None:
+                        detail += "first differing operation #%d\nmodel: %s\nimpl : %s" % (dd, m2[dd] if dd < len(m2) else None, i2[dd] if dd < len(i2) else None)
+                    rep.violation("model-disagreement", small, detail, False, signature="corr-hidden:%s" % prop)
             if len(stats["whitebox_samples"]) < 3:
                 stats["whitebox_samples"].append({"program": n, "line": d_full, "model": ml[d_full] if d_full < len(ml) else None,
                                                   "impl": il[d_full] if d_full < len(il) else None})
@@ -475,7 +491,7 @@ def search(prop, lines, feat, release, budget, stats):
 def new_stats():
     return {"generated": 0, "discarded_by_model": 0, "programs": 0, "ops": 0, "nontrivial_hashes": set(), "events": {},
             "panics_caught": 0, "other_oracle_hits": {}, "disagreements_checked": 0, "whitebox_only": 0, "whitebox_samples": [],
-            "reported": 0, "wb_searches": 0, "search_programs": 0, "builds": []}
+            "reported": 0, "hidden_reported": 0, "wb_searches": 0, "search_programs": 0, "builds": []}
 
 
 def proof_part(prop, rep):
